@@ -413,6 +413,11 @@ func (dc *downCtx) emit(h *downH, bad bool) {
 		return // that upstream has ended: the broker sends nothing more from it
 	}
 	ng := Pick(t, "e-groups", 1, 1, 2, 3)
+	if !bad && t.Bool("e-empty-chunk", 1, 15) {
+		// a chunk without data point groups is a chunk like any other: returned once, acknowledged once
+		ng = 0
+		s.Stat("env.chunk-without-groups")
+	}
 	var groups []sentGroup
 	for g := 0; g < ng; g++ {
 		id := dataID(t.Choose("e-id", dc.nIDs))
